@@ -5,6 +5,7 @@
 #include <sys/param.h>
 #include <sys/types.h>
 #include <errno.h>
+#include <fcntl.h>
 #include <pthread.h>
 #include <stdatomic.h>
 #include <stdint.h>
@@ -151,7 +152,7 @@ static send_slot slots[C05_SLOTS];
 
 static const c05_scn *g5;
 static tp_p g5_tp;
-static atomic_uint g5_go, g5_done, g5_stall_in, g5_stall_release;
+static atomic_uint g5_go, g5_done, g5_stall_in, g5_stall_release, g5_stall_shutdown_by_self;
 
 static void
 c05_cb(tpt_p tpt, void *udata) {
@@ -209,11 +210,26 @@ c05_stall_cb(tpt_p tpt, void *udata) {
 	int waited = 0;
 
 	(void)tpt; (void)udata;
-	atomic_store(&g5_stall_in, 1);
+	atomic_fetch_add(&g5_stall_in, 1);
 	while (0 == atomic_load(&g5_stall_release) && waited < CEIL_MS * 10) {
 		usleep(100);
 		waited ++;
 	}
+	if (0 != atomic_load(&g5_stall_shutdown_by_self)) {
+		tp_shutdown(g5_tp); /* a quit handler running on a pool thread: what is already queued to it was accepted before */
+		atomic_store(&g5_stall_shutdown_by_self, 2);
+	}
+}
+
+/* pipes registered on the virtual thread (pvt_sources phase): the callback drains its pipe */
+static tp_udata_t g5_pvt_ud[16];
+static atomic_uint g5_pvt_pipe_cbs;
+static void
+c05_pvt_pipe_cb(tp_event_p ev, tp_udata_p ud) {
+	char b[8];
+	(void)ev;
+	(void)!read((int)ud->ident, b, sizeof(b));
+	atomic_fetch_add(&g5_pvt_pipe_cbs, 1);
 }
 
 /* async-operation helpers */
@@ -309,6 +325,7 @@ c05_run(const c05_scn *scn, c05_out *out) {
 	atomic_store(&g5_done, 0);
 	atomic_store(&g5_stall_in, 0);
 	atomic_store(&g5_stall_release, 0);
+	atomic_store(&g5_stall_shutdown_by_self, 0);
 	atomic_store(&g_fence, 0);
 	atomic_store(&g_stop_hooks, 0);
 
@@ -364,6 +381,53 @@ c05_run(const c05_scn *scn, c05_out *out) {
 	out->hang |= fence_all(g5_tp, scn->nthreads, 1);
 	out->hang |= fence_all(g5_tp, scn->nthreads, 1);
 	tp_log(R_MARK, 1, 0, 0, 0);
+	/* event sources on the virtual thread compete with its message queue */
+	if (scn->pvt_sources && 0 == out->hang && 0 == scn->skip_first) {
+		int pp[16][2], np = 0, w = 0;
+		tpt_p pvt = tp_thread_get_pvt(g5_tp);
+		uint32_t k;
+		atomic_store(&g5_stall_in, 0);
+		atomic_store(&g5_stall_release, 0);
+		atomic_store(&g5_pvt_pipe_cbs, 0);
+		for (k = 0; k < scn->nthreads && k < 16; k ++) {
+			if (0 != pipe2(pp[k], O_NONBLOCK | O_CLOEXEC))
+				break;
+			memset(&g5_pvt_ud[k], 0, sizeof(tp_udata_t));
+			g5_pvt_ud[k].cb_func = c05_pvt_pipe_cb;
+			g5_pvt_ud[k].ident = (uintptr_t)pp[k][0];
+			if (0 != tpt_ev_add_args(pvt, TP_EV_READ, 0, 0, 0, &g5_pvt_ud[k])) {
+				close(pp[k][0]); close(pp[k][1]);
+				break;
+			}
+			np ++;
+		}
+		for (k = 0; k < scn->nthreads; k ++)
+			(void)tpt_msg_send(tp_thread_get(g5_tp, k), NULL, 0, c05_stall_cb, NULL);
+		while (atomic_load(&g5_stall_in) < scn->nthreads && w < CEIL_MS * 10) {
+			usleep(100);
+			w ++;
+		}
+		for (k = 0; k < (uint32_t)np; k ++)
+			(void)!write(pp[k][1], "p", 1);
+		id = out->nsends;
+		tp_log(R_SEND_CALL, id, 0, 0, 0);
+		rc = tpt_msg_send(pvt, NULL, 0, c05_cb, &slots[id]);
+		tp_log(R_SEND_RET, id, (uint64_t)(int64_t)rc, 0, 0);
+		out->npvt_msg = 1;
+		out->nsends ++;
+		atomic_store(&g5_stall_release, 1);
+		out->hang |= fence_all(g5_tp, scn->nthreads, 1);
+		out->hang |= fence_all(g5_tp, scn->nthreads, 1);
+		usleep(3000);
+		out->hang |= fence_all(g5_tp, scn->nthreads, 0);
+		out->pvt_pipe_cbs = atomic_load(&g5_pvt_pipe_cbs);
+		for (k = 0; k < (uint32_t)np; k ++) {
+			tpt_ev_del_args1(TP_EV_READ, &g5_pvt_ud[k]);
+			close(pp[k][0]);
+			close(pp[k][1]);
+		}
+		atomic_store(&g5_stall_in, 0);
+	}
 	/* async-operation helpers: allocated on one thread (or outside), completed on another; the result callback must run
 	 * exactly once on the destination given at allocation (NULL = the allocating thread) */
 	if (0 != scn->naops && 0 == out->hang) {
@@ -401,7 +465,10 @@ c05_run(const c05_scn *scn, c05_out *out) {
 				w ++;
 			}
 			if (0 != atomic_load(&g5_stall_in)) {
-				tp_shutdown(g5_tp);
+				if (scn->late_by_self)
+					atomic_store(&g5_stall_shutdown_by_self, 1); /* the held thread shuts the pool down itself, after the burst */
+				else
+					tp_shutdown(g5_tp);
 				for (b = 0; b < scn->late_burst && b < 2000; b ++) {
 					id = out->nsends + b;
 					tp_log(R_SEND_CALL, id, 0, 0, 0);
@@ -418,6 +485,13 @@ c05_run(const c05_scn *scn, c05_out *out) {
 				}
 			}
 			atomic_store(&g5_stall_release, 1);
+			if (1 == atomic_load(&g5_stall_shutdown_by_self)) { /* the held thread must be the one that shuts the pool down */
+				int w2 = 0;
+				while (2 != atomic_load(&g5_stall_shutdown_by_self) && w2 < CEIL_MS * 10) {
+					usleep(100);
+					w2 ++;
+				}
+			}
 		}
 	}
 	else if (0 != scn->race_n && 0 == out->hang && tpt_is_running(tp_thread_get(g5_tp, scn->race_dst % scn->nthreads))) {
